@@ -14,11 +14,13 @@ MODULES = ["HmsProofs.C04"]
 
 
 def judge(ctx, srcs, label):
+    """srcs: main texts, or (main, mods, singletons) triples (see progstream.run_all)."""
     res = progstream.run_all(srcs)
-    for src, r in zip(srcs, res):
+    for case, r in zip(srcs, res):
+        src, rec = progstream.source_text(case), progstream.source_record(case)
         if r.get("crashed"):
             ctx.count(case_key=src, nontrivial=True)
-            ctx.violation({"kind": "prog", "main": src, "go": r["A"][:400]}, f"{label}: a backend crashed the host: {r['A'][:120]}")
+            ctx.violation({"kind": "prog", **rec, "go": r["A"][:400]}, f"{label}: a backend crashed the host: {r['A'][:120]}")
             continue
         if not r["A"].startswith("ACCEPT"):
             continue
@@ -29,16 +31,16 @@ def judge(ctx, srcs, label):
         ctx.sample({"main": src[:300], "vm": vm["raw"][:160], "tree": tree["raw"][:160]}, limit=4)
         for name, o in (("VM", vm), ("interpreter", tree)):
             if o["cls"] in ("PANIC", "CRASH", "HANG", "INTERRUPT", "COMPILE-ERROR"):
-                ctx.violation({"kind": "prog", "main": src, "vm": vm["raw"][:400], "tree": tree["raw"][:400]},
+                ctx.violation({"kind": "prog", **rec, "vm": vm["raw"][:400], "tree": tree["raw"][:400]},
                               f"{label}: the {name} ended with {o['cls']} ({o.get('what', '')[:80]})")
                 break
         else:
             if "TERM" in (vm["cls"], tree["cls"]):
                 # wall-clock guard of the harness: re-run alone with a generous limit
-                rr = progstream.run_all([src], with_spec=False, timeout_ms=60000)[0]
+                rr = progstream.run_all([case], with_spec=False, timeout_ms=60000)[0]
                 vm, tree = rr.get("VM", vm), rr.get("TREE", tree)
             if not progstream.same_outcome(vm, tree):
-                ctx.violation({"kind": "prog", "main": src, "vm": vm["raw"][:600], "tree": tree["raw"][:600]},
+                ctx.violation({"kind": "prog", **rec, "vm": vm["raw"][:600], "tree": tree["raw"][:600]},
                               f"{label}: backends disagree (vm: {vm['cls']} {vm.get('kind', '')} {vm.get('msg', '')[:40]!r} out={vm.get('out', '')[-50:]!r}; "
                               f"interpreter: {tree['cls']} {tree.get('kind', '')} {tree.get('msg', '')[:40]!r} out={tree.get('out', '')[-50:]!r})")
                 continue
@@ -65,6 +67,14 @@ def run(ctx):
         for i in range(0, len(fsrcs), 1500):
             judge(ctx, fsrcs[i:i + 1500], f"C04 family {fam}")
         ctx.coverage[f"family_{fam}"] = len(fsrcs)
+    # singletons: both backends are handed the same host values (LoadSingleton)
+    sing = families.singleton_cases()
+    before = ctx.evaluations
+    judge(ctx, sing, "C04 family singletons")
+    ctx.coverage["family_singletons"] = len(sing)
+    ctx.coverage["family_singletons_host_provided"] = sum(1 for c in sing if c[2])
+    if ctx.evaluations - before < len(sing):
+        ctx.broken.append(f"singleton family: only {ctx.evaluations - before} of {len(sing)} programs were accepted by the analyzer")
     # the control-flow nestings of C11 (exits out of loops, try/catch, calls, with shadowed canaries), here VM vs interpreter
     nest = [nesting.program(ws, x) for ws, x, _ in nesting.enumerate_all(2 if ctx.tier == "quick" else 3)]
     if ctx.tier != "quick":
@@ -94,8 +104,8 @@ def replay(ctx, rep):
     if rep.get("kind") != "prog":
         print("replay names a broken obligation, not an input:", rep)
         return 1
-    r = progstream.run_all([rep["main"]], with_spec=False)[0]
-    print(rep["main"])
+    r = progstream.run_all([progstream.source_of_record(rep)], with_spec=False)[0]
+    print(progstream.source_text(progstream.source_of_record(rep)))
     vm, tree = r.get("VM"), r.get("TREE")
     print("VM:  ", vm and vm["raw"])
     print("TREE:", tree and tree["raw"])
